@@ -590,6 +590,12 @@ func genFull(seed int64, property string) *Plan {
 			at := int64(r.Intn(int(durMs)))
 			off := []int64{0, 0, 4000, 25000}[r.Intn(4)]
 			p.Ops = append(p.Ops, UserOp{AtMs: at, Kind: "killJob", NS: "default", Name: name, OffMs: off})
+			if r.Intn(3) == 0 {
+				// the user changes their mind: remove the kill timestamp again, or push it
+				// back. Admissible only while it has not passed (validating webhook).
+				later := []int64{0, 0, 30000}[r.Intn(3)]
+				p.Ops = append(p.Ops, UserOp{AtMs: at + int64(200+r.Intn(12000)), Kind: "unkillJob", NS: "default", Name: name, OffMs: later})
+			}
 		}
 	}
 	if property == "C13" || property == "C11" || property == "C15" || property == "C05" || property == "C06" || (property != "C20" && r.Intn(4) == 0) {
